@@ -473,6 +473,13 @@ func (c *Ctx) ValidatePaths(jr *JobResult) {
 		cand.NativeStatus = res[0].Status
 		cand.NativeMsg = res[0].Msg
 		cand.NativeObs = res[0].Obs
+		if res[0].Status == "ok" && cand.Status == "assert-fail" && (strings.Contains(cand.AssertID, "file-system-consulted") || strings.Contains(cand.AssertID, "path-outside") || strings.Contains(cand.AssertID, "path-with-dot")) {
+			// an engine-side file-system-log assertion: confirm it from the system calls of the native run
+			if off := c.nativeFSTrace(j.Pkg, nativeCase{Harness: j.Fn, In: mergeInputs(cand.Inputs, j.Params)}, strings.Contains(cand.AssertID, "file-system-consulted")); off != "" {
+				cand.NativeStatus, cand.NativeMsg, cand.Confirmed = "fs-trace", off, true
+				continue
+			}
+		}
 		switch cand.Status {
 		case "assert-fail":
 			cand.Confirmed = res[0].Status == "assert-fail" && res[0].Msg == cand.AssertID
@@ -939,4 +946,62 @@ func StaticNondeterminismScan(c *Ctx) map[string]interface{} {
 	sort.Strings(calls)
 	sort.Strings(convs)
 	return map[string]interface{}{"range_over_map": ranges, "time_rand_env_calls": calls, "pointer_to_integer_conversions": convs}
+}
+
+// nativeFSTrace runs one case under strace and returns an offending path accessed
+// between the harness' begin/end markers ("" = none): any path under the run's
+// temporary root when anyAccess is set, otherwise any path under the root that is
+// outside <root>/p/ or contains a dot segment.
+func (c *Ctx) nativeFSTrace(pkg string, cs nativeCase, anyAccess bool) string {
+	bin, err := c.testBinary(pkg)
+	if err != nil {
+		return ""
+	}
+	f, _ := os.CreateTemp(c.tmp, "trace-*.json")
+	b, _ := json.Marshal([]nativeCase{cs})
+	f.Write(b)
+	f.Close()
+	logp := f.Name() + ".strace"
+	cmd := exec.Command("strace", "-f", "-e", "trace=%file", "-o", logp, bin, "-test.run", "^TestVerifReplay$", "-test.timeout", "60s")
+	cmd.Dir = filepath.Join(RepoDir, pkg)
+	cmd.Env = append(goEnv(), "VERIF_REPLAY="+f.Name(), "VERIF_REPLAY_OUT="+f.Name()+".out")
+	cmd.CombinedOutput()
+	defer os.Remove(f.Name())
+	defer os.Remove(f.Name() + ".out")
+	defer os.Remove(logp)
+	lb, err := os.ReadFile(logp)
+	if err != nil {
+		return ""
+	}
+	inside, root := false, ""
+	for _, line := range strings.Split(string(lb), "\n") {
+		i := strings.IndexByte(line, '"')
+		if i < 0 {
+			continue
+		}
+		j := strings.IndexByte(line[i+1:], '"')
+		if j < 0 {
+			continue
+		}
+		p := line[i+1 : i+1+j]
+		if strings.HasPrefix(p, "/verif-fs-mark/begin") {
+			inside, root = true, strings.TrimPrefix(p, "/verif-fs-mark/begin")
+			continue
+		}
+		if strings.HasPrefix(p, "/verif-fs-mark/end") {
+			inside = false
+			continue
+		}
+		if !inside || root == "" || !strings.HasPrefix(p, root) {
+			continue
+		}
+		rel := strings.TrimPrefix(p, root)
+		if anyAccess {
+			return p
+		}
+		if !strings.HasPrefix(rel, "/p/") || strings.Contains(rel, "/../") || strings.Contains(rel, "/./") || strings.HasSuffix(rel, "/..") || strings.HasSuffix(rel, "/.") {
+			return p
+		}
+	}
+	return ""
 }
